@@ -366,10 +366,13 @@ pub fn replay<C: Check>(check: &'static C, path: &str, known: &[String]) -> i32 
 pub fn minimise<C: Check>(check: &'static C, scn: C::Scn, v: &Violation, budget: usize, known: &BTreeSet<String>) -> (C::Scn, usize) {
     let mut best = scn;
     let mut used = 0usize;
+    // large scenarios (thousands of steps) make every candidate expensive: minimisation also stops after a
+    // fixed share of the per-run watchdog, whatever has been reached by then is reported
+    let t0 = Instant::now();
     'outer: loop {
         let cands = check.shrink(&best);
         for cand in cands {
-            if used >= budget {
+            if used >= budget || t0.elapsed() > Duration::from_secs(25) {
                 break 'outer;
             }
             used += 1;
